@@ -8,6 +8,7 @@
    decimals, so exact equality is false and not claimed). *)
 From Coq Require Import Reals List.
 From ND.lib Require Import Expr.
+From ND.lib Require Poly.
 From ND.gen Require Import Gen_C17 Gen_C17o.
 From ND.lib Require Import Sphere.
 From ND.proofs Require Import C17_harmonics C17_bases C17_other.
@@ -70,6 +71,12 @@ Proof. exact legendre_ode_holds. Qed.
 Theorem C17_legendre_normalised : forall d, (d <= 12)%nat -> forall venv penv fenv, venv 0%nat = 1 ->
   eval venv penv fenv (nth d legendre_terms (ECst 0)) = 1.
 Proof. exact legendre_normalised. Qed.
+
+(* ... and the generated term of degree d is a polynomial of degree exactly d in x (with Legendre's equation and
+   P(1) = 1 this characterises P_d): decided by the certified polynomial normaliser lib/Poly.v *)
+Theorem C17_legendre_degree : forall d, (d <= 12)%nat ->
+  exists p, Poly.pnorm 0 (nth d legendre_terms (ECst 0)) = Some p /\ pdeg p = Some d.
+Proof. exact legendre_degree. Qed.
 
 (* ---- zonal harmonics: Y_l = sqrt((2l+1)/(4 pi)) P_l(cos theta), any degree list up to 12 *)
 Theorem C17_zonal_spec :
